@@ -570,6 +570,58 @@ theorem mergeWithProto_good_store (fuel : Nat) (ord : MapOrder) (st : Store) (hg
   rw [← addBins_finBins] at a1
   rw [mergeWithProto_eq_fold, msgCalls_finBins ord pb hfin, addAll_of_addBins _ _ _ a1]
 
+/-- the sparse entries of the message as rational bins, in the oracle's order -/
+def sparseBins (ord : MapOrder) (pb : GoPb.Store F64) : List (Int × Rat) :=
+  (mrange ord pb.BinCounts).map (fun p => (wrap32 p.1, (ratOfF64 p.2).getD 0))
+
+/-- the contiguous counts of the message as rational bins: entry number `k` sits at index `k + offset` -/
+def contigBins (pb : GoPb.Store F64) : List (Int × Rat) :=
+  pb.ContiguousBinCounts.zipIdx.map
+    (fun cv => ((cv.2 : Int) + pb.ContiguousBinIndexOffset.toInt, (ratOfF64 cv.1).getD 0))
+
+/-- the entries of the `BinCounts` map as rational bins, in storage (ascending) order -/
+def mapBins (pb : GoPb.Store F64) : List (Int × Rat) := pb.BinCounts.map (fun p => (p.1, (ratOfF64 p.2).getD 0))
+
+theorem msgBins_eq (ord : MapOrder) (pb : GoPb.Store F64) : msgBins ord pb = sparseBins ord pb ++ contigBins pb := by
+  unfold msgBins msgCalls sparseBins contigBins
+  rw [List.map_append, List.map_map, List.map_map]; rfl
+
+/-- ORDER INDEPENDENCE: for a lawful oracle the sparse bins are a permutation of the map's entries (the keys of a
+    well-formed message are `int32` values: no wrap) -/
+theorem sparseBins_perm (ord : MapOrder) (hl : ord.Lawful) (pb : GoPb.Store F64) (hwf : pb.WF) :
+    (sparseBins ord pb).Perm (mapBins pb) := by
+  unfold sparseBins mapBins
+  have h1 : (mrange ord pb.BinCounts).map (fun p => (wrap32 p.1, (ratOfF64 p.2).getD 0))
+      = (mrange ord pb.BinCounts).map (fun p => (p.1, (ratOfF64 p.2).getD 0)) := by
+    apply List.map_congr_left
+    intro p hp
+    have hp' : p ∈ pb.BinCounts := (mrange_permV ord hl _ hwf.2).mem_iff.1 hp
+    rw [wrap32_of_I32 p.1 (hwf.1 p hp')]
+  rw [h1]
+  exact (mrange_permV ord hl _ hwf.2).map _
+
+/-- C09 on the regenerated code: index by index, the bins of a message weigh what its `BinCounts` entries give plus
+    what its contiguous counts give — whatever the iteration order -/
+theorem lookup_msgBins (ord : MapOrder) (hl : ord.Lawful) (pb : GoPb.Store F64) (hwf : pb.WF) (j : Int) :
+    Content.lookup (msgBins ord pb) j = Content.lookup (mapBins pb) j + Content.lookup (contigBins pb) j := by
+  rw [msgBins_eq, PStore.lookup_append, GenSparse.perm_lookup (sparseBins_perm ord hl pb hwf)]
+
+/-- the content after the merge does not depend on the oracle -/
+theorem merge_order_irrelevant (E : Content) (hE : E.WF) (pb : GoPb.Store F64) (hwf : pb.WF)
+    (o1 o2 : MapOrder) (h1 : o1.Lawful) (h2 : o2.Lawful)
+    (hn1 : ∀ p ∈ msgBins o1 pb, 0 ≤ p.2) (hn2 : ∀ p ∈ msgBins o2 pb, 0 ≤ p.2) :
+    E.merge (msgBins o1 pb) = E.merge (msgBins o2 pb) := by
+  apply Content.ext _ _ (Content.wf_merge_of_nonneg _ _ hE hn1) (Content.wf_merge_of_nonneg _ _ hE hn2)
+  intro j
+  rw [Content.lookup_merge, Content.lookup_merge, lookup_msgBins o1 h1 pb hwf, lookup_msgBins o2 h2 pb hwf]
+
+/-- the weights add up on top of what the store held (the statement of `C09.mergeWithProto_adds`) -/
+theorem lookup_merge_msgBins (E : Content) (ord : MapOrder) (hl : ord.Lawful) (pb : GoPb.Store F64) (hwf : pb.WF)
+    (j : Int) :
+    (E.merge (msgBins ord pb)).lookup j
+      = E.lookup j + Content.lookup (mapBins pb) j + Content.lookup (contigBins pb) j := by
+  rw [Content.lookup_merge, lookup_msgBins ord hl pb hwf, Rat.add_assoc]
+
 end model
 
 end DDS.GenProtoStore
